@@ -369,6 +369,21 @@ def r_expr(w, n, ind):
                 w.w(", ")
             r_expr(w, a, ind)
         w.w(")")
+    elif k == "range" and w.minimal:
+        # `..` binds tighter than every infix operator and weaker than prefix and postfix forms: only infix operands,
+        # casts and block-like values need parentheses (the range itself gets them from its context)
+        def bound(x):
+            bare = x["k"] in ("var", "call", "callv", "mcall", "idx", "mem", "str", "list", "un", "flt") or (x["k"] == "int" and x["v"] >= 0)
+            if not bare:
+                w.w("(")
+            r_expr(w, x, ind)
+            if not bare:
+                w.w(")")
+        w.w("(")
+        bound(n["l"])
+        w.w("..=" if n["incl"] else "..")
+        bound(n["r"])
+        w.w(")")
     elif k == "range":
         w.w("((")
         r_expr(w, n["l"], ind)
